@@ -541,9 +541,9 @@ class C08(Prop):
         "a context that stops while one of *its own* threads is inside subscribe is outside the property's quantifier (DESIGN §7c)",
         "sendall fails only when the other end has closed (simulated network); request ids are fresh counters; a KeyError of "
         "_handle_subscription_reply (unknown request id) is a contained no-op",
-        "quiescent consistency (both tables agree once nothing is in flight and no stop is in progress, QuiescentConsistencySettled) is "
-        "stated but not proved in Lean for the model of the current source (it was false before a22664f: stale removal notice, see "
-        "staleTrace_ends_consistent); it is checked per history by the oracle (table iff in both directions, probes, transmitted peers); "
+        "quiescent consistency is PROVED for the model (quiescent_consistency: simulation onto a finite abstraction of the protocol, "
+        "Lemmas/C08Proto..C08Sim10) under the hypothesis that no live context is half-way through its stop; on the implementation the "
+        "oracle checks it per history (table iff in both directions, probes, transmitted peers); "
         "termination of the internal activity (a decreasing measure) is not mechanised: subscribe_terminates covers states at rest",
         "the deterministic scheduler, the simulated network and the tap layer (harness/props/pubsub_common.py)",
     ]
